@@ -684,6 +684,30 @@ def codec_binding(ctx, prog):
         return None if strip(p.term()) == strip(ec[0].ret) else 'result is not the encoder\'s output'
     A.require('encode_b64/base64url-of-the-whole-input', paths, r_enc, replay=RB)
 
+    # create_message: the signing input is the header bytes, one '.', the payload bytes - as bytes, through nothing that could alter
+    # them (a lossy text conversion, a trim, a re-encoding)
+    f = prog.one(r'(^|::)create_message$')
+    paths, ex = A.paths(f, inline=r'create_message::\{closure')
+
+    def r_cm(p):
+        if p.kind != 'return':
+            return None   # header.len() + claims.len() + 1 on two slice lengths: cannot overflow usize for real slices (listed)
+        steps = [c for c in p.calls if not c.inlined and not re.search(r'with_capacity$|::len$', c.name)]
+        want = [(r'Extend<&u8>>::extend$|extend_from_slice$', 'header'), (r'Vec::push$|Vec<u8>::push$', None), (r'Extend<&u8>>::extend$|extend_from_slice$', 'claims')]
+        if len(steps) != 3:
+            return 'signing input is not built by exactly: append header, push, append claims (%s)' % [c.name.split('::')[-1] for c in steps][:6]
+        for c, (rx, leaf) in zip(steps, want):
+            if not re.search(rx, c.name):
+                return 'signing input built through %s' % c.name.split('::')[-1]
+            if leaf and strip(c.args[1]) != ('leaf', leaf):
+                return 'the %s bytes are not appended as they were given' % leaf
+        dot = steps[1].argvals[1] if steps[1].argvals else None
+        if not (isinstance(dot, VInt) and p.implies(dot.e == 46)):
+            return 'separator is not a single "."'
+        return None
+    A.require('create_message/header-dot-payload-byte-for-byte', paths, r_cm, replay=RB)
+    ctx.assumptions.append('contract: create_message capacity arithmetic (two slice lengths + 1) cannot overflow usize')
+
     f = prog.one(r'base64::decode_b64_json$')
     paths, ex = A.paths(f, inline=r'base64::decode_b64_json::\{closure')
 
@@ -725,4 +749,11 @@ def main(ctx):
     guarded(ctx, 'jws binding audit', 'M', lambda: run(ctx, prog))
     guarded(ctx, 'base64url codec binding', 'M', lambda: codec_binding(ctx, prog))
     guarded(ctx, 'verifier dispatch', 'M', lambda: verifier_dispatch(ctx))
+    # the document-level entry point hands back what the item verification produced (claims, headers) - C03's obligation, re-used
+    import c03
+
+    def document_entry():
+        prog2, info2 = load(c03.CRATES, src_only=c03.SRC)
+        c03.run(ctx, prog2, only=r'^verify_jws/')
+    guarded(ctx, 'CoreDocument::verify_jws (shared with C03)', 'M', document_entry)
     guarded(ctx, 'scheme verifiers', 'M', lambda: scheme_verifiers(ctx))
